@@ -86,7 +86,8 @@ class MNA(object):
         self.extra_branch_currents = []
 
         for elt in self.cct.elements.values():
-            if elt.need_branch_current:
+            if (elt.need_branch_current and
+                    elt.name not in self.unknown_branch_currents):
                 self.unknown_branch_currents.append(elt.name)
             if elt.need_extra_branch_current:
                 self.unknown_branch_currents.append(elt.name + 'X')
